@@ -132,6 +132,8 @@ var checkInv = ev.Register("invcdf", func(c *Case) ev.Outcome {
 	}
 	inv := stats.InvCDF(w)
 	ys := ev.Floats(c.Ys)
+	// every case also probes the floats adjacent to the ends of [0,1] from outside
+	ys = append(ys, math.Nextafter(1, 2), 1+0x1p-51, -5e-324, -0x1p-1022, math.Inf(1), math.Inf(-1))
 	sort.Float64s(ys) // NaNs (none generated) would sort first
 	nt := false
 	prevX := math.Inf(-1)
